@@ -6,12 +6,13 @@
     Proofs/B64Arith.v + Proofs/UTestSigma.v (binary64 sigma_U, classical reals).
 
     Model = golang/perf's internal/stats after hooks/fix_c11_udist_k2.diff,
-    fix_c11_utest_greater.diff and fix_c11_utest_twosided_cap.diff.
+    fix_c11_utest_greater.diff, fix_c11_utest_twosided_cap.diff and
+    fix_c11_utest_samples_equal_large.diff.
     Recorded finding (not repaired, the repair needs an edit of a pinned test
     value): C11_twosided_asymmetric_ties, see C11_twosided_asymmetric_refuted;
     confined to NON-palindromic tie vectors by C11_two_sided_palindrome_is_spec.
-    Recorded finding (candidate repair hooks/fix_c11_utest_samples_equal_large.diff):
-    C11_err_samples_equal_large_refuted (330284 equal values: no ErrSamplesEqual). *)
+    Repaired finding (hooks/fix_c11_utest_samples_equal_large.diff): the code before it,
+    [mwu_old], C11_err_samples_equal_large_refuted (330284 equal values: no ErrSamplesEqual). *)
 From Coq Require Import ZArith List Bool Lia.
 From Perf Require Import Base.B64 Model.UStat Model.UDistSpec Model.UDistImpl Model.UTest.
 From Perf Require Import Proofs.UStat Proofs.UDistSpec Proofs.UDistImpl Proofs.UTest.
@@ -287,17 +288,61 @@ Theorem C11_err_samples_equal_iff_exact : forall erfc x1 x2 a,
 Proof. exact err_samples_equal_iff_exact. Qed.
 Print Assumptions C11_err_samples_equal_iff_exact.
 
-(** in the approximate regime the code returns ErrSamplesEqual iff the binary64 sigma_U
-    is zero (kept under its old name; completed by the theorems below) *)
+(** errors_iff for ErrSamplesEqual. The model follows the repaired code
+    (hooks/fix_c11_utest_samples_equal_large.diff, committed): len(T) == 1 is tested
+    before the exact/approximate switch.
+    <= : all pooled values equal => ErrSamplesEqual, for ALL sizes, both regimes *)
+Theorem C11_err_samples_equal_if_equal : forall erfc x1 x2 a,
+  x1 <> [] -> x2 <> [] -> (exists v, Forall (fun x => x = v) (x1 ++ x2)) ->
+  mwu erfc x1 x2 a = RErrSamplesEqual.
+Proof. exact err_samples_equal_if_equal. Qed.
+Print Assumptions C11_err_samples_equal_if_equal.
+
+(** behind the single-run test the approximate path still tests sigma == 0 in binary64
+    (kept under its old name; the old statement is C11_err_samples_equal_approx_old) *)
 Theorem C11_err_samples_equal_approx_partial : forall erfc x1 x2 a,
   x1 <> [] -> x2 <> [] -> use_exact (ustat_of x1 x2) = false ->
-  (mwu erfc x1 x2 a = RErrSamplesEqual <-> b64_eq (sigma_U (ustat_of x1 x2)) b64_zero = true).
+  (mwu erfc x1 x2 a = RErrSamplesEqual <->
+   (exists c, us_T (ustat_of x1 x2) = [c]) \/ b64_eq (sigma_U (ustat_of x1 x2)) b64_zero = true).
 Proof. exact err_samples_equal_approx. Qed.
 Print Assumptions C11_err_samples_equal_approx_partial.
 
 (** sigma_U in binary64, as coded: sqrt(n1 n2 ((N+1) - t/(N(N-1))) / 12).
-    One run (all pooled values equal, t = N^3 - N): while N^3 - N < 2^53 every operand
-    is an exact integer, the quotient is exactly N + 1, the factor exactly 0, sigma = 0 *)
+    Two or more runs: t <= (N-2)(N-1)N, float64(t) / float64(N(N-1)) rounds to at most
+    N - 1, the factor is at least 2 and sigma >= 1/4, for every N <= 2^52 (monotonicity of
+    rounding, one relative error 2^-53 each for float64(t) and float64(N(N-1))) *)
+Theorem C11_sigma_pos_two_runs : forall n1 n2 T, 1 <= n1 -> 1 <= n2 ->
+  Forall (fun x => 1 <= x) T -> (2 <= length T)%nat -> zsum T = n1 + n2 -> n1 + n2 <= 2 ^ 52 ->
+  b64_eq (sigma_of n1 n2 T) b64_zero = false.
+Proof. exact sigma_pos_two_runs. Qed.
+Print Assumptions C11_sigma_pos_two_runs.
+
+(** errors_iff, both regimes: ErrSamplesEqual iff all pooled values are equal. Size
+    hypothesis N <= 2^52: only for =>, only in the approximate regime, only because the
+    code still consults sigma == 0 there (float64(N), N-1, N+1 are exact up to 2^52; no
+    slice holds that many values). The model computes sum t_k^3 and n1 n2 in unbounded
+    integers; Go's int does so while they stay below 2^63. *)
+Theorem C11_err_samples_equal_iff : forall erfc x1 x2 a,
+  x1 <> [] -> x2 <> [] -> zlen x1 + zlen x2 <= 2 ^ 52 ->
+  (mwu erfc x1 x2 a = RErrSamplesEqual <-> exists v, Forall (fun x => x = v) (x1 ++ x2)).
+Proof. exact err_samples_equal_iff. Qed.
+Print Assumptions C11_err_samples_equal_iff.
+
+(** the repair changes only the error decision for a single run *)
+Theorem C11_repair_changes_single_run_only : forall erfc x1 x2 a,
+  (forall c, us_T (ustat_of x1 x2) <> [c]) -> mwu erfc x1 x2 a = mwu_old erfc x1 x2 a.
+Proof. exact mwu_old_agrees. Qed.
+Print Assumptions C11_repair_changes_single_run_only.
+
+(** ** the code BEFORE the repair ([mwu_old]): the sigma == 0 test alone decides in the
+    approximate regime *)
+Theorem C11_err_samples_equal_approx_old : forall erfc x1 x2 a,
+  x1 <> [] -> x2 <> [] -> use_exact (ustat_of x1 x2) = false ->
+  (mwu_old erfc x1 x2 a = RErrSamplesEqual <-> b64_eq (sigma_U (ustat_of x1 x2)) b64_zero = true).
+Proof. exact err_samples_equal_approx_old. Qed.
+Print Assumptions C11_err_samples_equal_approx_old.
+(** one run (t = N^3 - N): while N^3 - N < 2^53 every operand is an exact integer, the
+    quotient is exactly N + 1, the factor exactly 0, sigma = 0 *)
 Theorem C11_sigma_zero_all_equal : forall n1 n2, 1 <= n1 -> 1 <= n2 ->
   let N := n1 + n2 in N * N * N - N < 2 ^ 53 ->
   b64_eq (sigma_of n1 n2 [N]) b64_zero = true.
@@ -309,34 +354,17 @@ Theorem C11_sigma_zero_all_equal_to_330283 : forall n1 n2, 1 <= n1 -> 1 <= n2 ->
   b64_eq (sigma_of n1 n2 [n1 + n2]) b64_zero = true.
 Proof. exact sigma_zero_all_equal_to_330283. Qed.
 Print Assumptions C11_sigma_zero_all_equal_to_330283.
-(** two or more runs: t <= (N-2)(N-1)N, the rounded quotient is at most N - 1, the
-    factor at least 2 and sigma >= 1/4, for every N <= 2^26 (monotonicity of rounding) *)
-Theorem C11_sigma_pos_two_runs : forall n1 n2 T, 1 <= n1 -> 1 <= n2 ->
-  Forall (fun x => 1 <= x) T -> (2 <= length T)%nat -> zsum T = n1 + n2 -> n1 + n2 <= 2 ^ 26 ->
-  b64_eq (sigma_of n1 n2 T) b64_zero = false.
-Proof. exact sigma_pos_two_runs. Qed.
-Print Assumptions C11_sigma_pos_two_runs.
-
-(** errors_iff, approximate regime: ErrSamplesEqual iff all pooled values are equal, for
-    every pooled size up to 330283 (sharp: C11_err_samples_equal_large_refuted) *)
-Theorem C11_err_samples_equal_iff_approx : forall erfc x1 x2 a,
+(** so the old code met the clause up to a pooled size of 330283 ... *)
+Theorem C11_err_samples_equal_iff_approx_old : forall erfc x1 x2 a,
   x1 <> [] -> x2 <> [] -> use_exact (ustat_of x1 x2) = false ->
   zlen x1 + zlen x2 <= 330283 ->
-  (mwu erfc x1 x2 a = RErrSamplesEqual <-> exists v, Forall (fun x => x = v) (x1 ++ x2)).
-Proof. exact err_samples_equal_iff_approx. Qed.
-Print Assumptions C11_err_samples_equal_iff_approx.
-(** the direction that survives: samples with two different values are never reported equal *)
-Theorem C11_err_samples_equal_only_if_equal : forall erfc x1 x2 a,
-  x1 <> [] -> x2 <> [] -> use_exact (ustat_of x1 x2) = false ->
-  zlen x1 + zlen x2 <= 2 ^ 26 ->
-  mwu erfc x1 x2 a = RErrSamplesEqual -> exists v, Forall (fun x => x = v) (x1 ++ x2).
-Proof. exact err_samples_equal_only_if_equal. Qed.
-Print Assumptions C11_err_samples_equal_only_if_equal.
-
-(** FINDING (current code): beyond N^3 - N >= 2^53 float64(t) is rounded and the
-    cancellation is not exact any more. 330284 equal values (165142 + 165142): sigma =
-    0.3637.., no error, a p-value comes back; 330292 equal values: the factor is
-    negative, sigma = NaN, p = NaN with a nil error. Confirmed on /repo. *)
+  (mwu_old erfc x1 x2 a = RErrSamplesEqual <-> exists v, Forall (fun x => x = v) (x1 ++ x2)).
+Proof. exact err_samples_equal_iff_approx_old. Qed.
+Print Assumptions C11_err_samples_equal_iff_approx_old.
+(** ... and no further: beyond N^3 - N >= 2^53 float64(t) is rounded and the cancellation
+    is not exact any more. 330284 equal values (165142 + 165142): sigma = 0.3637.., no
+    error, a p-value came back; 330292 equal values: the factor is negative, sigma = NaN,
+    p = NaN with a nil error. Was confirmed on /repo before commit 3beed41. *)
 Theorem C11_sigma_all_equal_refuted :
   b64_eq (sigma_of 165142 165142 [330284]) b64_zero = false /\
   sigma_of 165142 165142 [330284] = b64_of_bits 0x3FD7470C73522596 /\
@@ -344,17 +372,14 @@ Theorem C11_sigma_all_equal_refuted :
 Proof. exact sigma_all_equal_refuted. Qed.
 Theorem C11_err_samples_equal_large_refuted :
   exists x1 x2, x1 <> [] /\ x2 <> [] /\ (exists v, Forall (fun x => x = v) (x1 ++ x2)) /\
-    forall erfc a, mwu erfc x1 x2 a <> RErrSamplesEqual.
+    forall erfc a, mwu_old erfc x1 x2 a <> RErrSamplesEqual.
 Proof. exact err_samples_equal_large_refuted. Qed.
 Print Assumptions C11_err_samples_equal_large_refuted.
-
-(** with hooks/fix_c11_utest_samples_equal_large.diff (len(T) == 1 tested before the
-    exact/approximate switch) the clause holds in both regimes *)
-Theorem C11_err_samples_equal_iff_repaired : forall erfc x1 x2 a,
-  x1 <> [] -> x2 <> [] -> zlen x1 + zlen x2 <= 2 ^ 26 ->
-  (mwu_repaired erfc x1 x2 a = RErrSamplesEqual <-> exists v, Forall (fun x => x = v) (x1 ++ x2)).
-Proof. exact err_samples_equal_iff_repaired. Qed.
-Print Assumptions C11_err_samples_equal_iff_repaired.
+(** the repaired code on the witness *)
+Theorem C11_err_samples_equal_large_repaired : forall erfc a,
+  mwu erfc (repeat 7 (Z.to_nat 165142)) (repeat 7 (Z.to_nat 165142)) a = RErrSamplesEqual.
+Proof. exact err_samples_equal_large_repaired. Qed.
+Print Assumptions C11_err_samples_equal_large_repaired.
 
 (** ** refuted for the code before the repairs (witnesses of DESIGN section 10) *)
 Theorem C11_k2_refuted : exists t n1 u, umemo_old t n1 u <> count_le t n1 u.
